@@ -535,8 +535,12 @@ func (w *World) Key(finished, withFinality bool) string {
 	return sb.String()
 }
 
-// newDeposit fixes the field values of a deposit from its network, ordinal and variant. The four
-// variants cover: asset / message, empty / non-empty metadata, native / foreign origin token,
+// GasToken is the custom gas token of the observed chains (what gasTokenAddress() of the bridge answers): a deposit whose
+// origin token is this address is flagged IsNativeToken by the bridge syncer although it carries token metadata.
+var GasToken = common.HexToAddress("0x00000000000000000000000000000000009a5709")
+
+// newDeposit fixes the field values of a deposit from its network, ordinal and variant. The five
+// variants cover: asset / message, empty / non-empty metadata, native / foreign / custom-gas-token origin,
 // small / zero / huge amounts. Every deposit of a world is distinct.
 func newDeposit(net, count uint32, variant int) *Deposit {
 	d := &Deposit{Net: net, Count: count, Variant: variant, DestinationNetwork: NetL2}
@@ -548,7 +552,15 @@ func newDeposit(net, count uint32, variant int) *Deposit {
 	}
 	ord := byte(net*16 + count + 1)
 	d.DestinationAddress = common.BytesToAddress([]byte{0xd0, byte(net), ord, byte(variant)})
-	switch variant % 4 {
+	switch variant % 5 { //nolint:mnd
+	case 4: // the chain's custom gas token (the syncer flags it as native) WITH token metadata
+		d.LeafType = 0
+		d.OriginNetwork = 0
+		d.OriginAddress = GasToken
+		d.Amount = big.NewInt(int64(5_000_000 + int(ord)))
+		d.Metadata = make([]byte, 96)
+		d.Metadata[31], d.Metadata[63], d.Metadata[95] = 0x60, 0xa0, 6
+		d.Metadata[1] = ord
 	case 0: // native asset, no metadata
 		d.LeafType = 0
 		d.OriginNetwork = 0
